@@ -448,6 +448,14 @@ Proof.
   cbn [step]. unfold schedule. cbn [snd]. eexists _, _. split; [reflexivity|]. split; [exact H1|exact H2].
 Qed.
 
+Lemma every_unique_wrap m p :
+  snext m < 2 ^ 63 -> Z.of_nat (length (srefer m)) < maxid ->
+  exists b id, snd (step m (Every p)) = OId b id /\ 0 < id /\ ~ In id (srefer m).
+Proof.
+  intros Hn Hl. destruct (alloc_unique (snext m) (srefer m) Hn Hl) as [H1 H2].
+  cbn [step]. unfold schedule. cbn [snd]. eexists _, _. split; [reflexivity|]. split; [exact H1|exact H2].
+Qed.
+
 (* the counter at the top of its range with ids 1 and 3 pending: the next three starts get
    MaxInt64, then 2 (the wrap skips 1), then 4 (3 is skipped) *)
 Example alloc_wrap_example :
